@@ -7,6 +7,9 @@ Everything that comes out of pyproj is a parameter captured from the real run: t
 box of the buffered, densified footprint in the destination CRS, whether the CRSs / their units
 are equal, the source resolution, the centre-pixel fit (`dst_.resolution`, `sx`, `sy`), the UTM
 CRS picked by the database query and the overlap fractions of the candidates.
+(The footprint itself — `GeoBoxBase.footprint`, geobox.py:228-250, repaired on branch fix-C11 to
+buffer by the absolute pixel size — is on the pyproj/shapely side of that boundary; its bbox is
+what the harness captures and what the enclosure oracle tests against every projected pixel.)
 `from_bbox` / `snap_grid` are owned by C08; the small copy here is what this property needs
 (the C08 contract `snap_cover` / `snap_aligned` is re-proved for it in Lemmas/C11.lean).
 -/
